@@ -808,6 +808,12 @@ impl<'a> Lexer<'a> {
             }
         }
 
+        // a line feed kept inside a quoted literal still ends the source line
+        if c == '\n' && (self.state == LexingState::CharList || self.state == LexingState::ByteList) {
+            self.text_column = 0;
+            self.text_row += 1;
+        }
+
         // need to relook at column count when deep diving into line feed, form feed, carriage return parsing
         if c != '\n' {
             self.text_column += 1;
